@@ -387,6 +387,9 @@ func Run(tier string) int {
 		timedOut = 1
 	}
 	rep.Coverage["long_conversation_merges"] = fmt.Sprintf("%d of %d", lcDone, lcTotal)
+	etDone, etTotal := checkEqualTimes(rep, root)
+	rep.Coverage["equal_time_merges"] = fmt.Sprintf("%d of %d", etDone, etTotal)
+	rep.Coverage["equal_time_rule"] = "streams of different files that start at the same nanosecond and end at different times (and the reverse: equal ends, different starts), every order of the files, merged; searches sorted by first / last packet time with limits 1-3 in both directions and time filters between the distinct times must answer as before the merge"
 	rep.Coverage["long_conversation_rule"] = "a file holding a conversation with thousands of direction changes (4085 ... 8173 runs, thorough up to 20000; 8-byte and 200-byte chunks, i.e. one- and two-byte run lengths) between ordinary streams, merged with an older file in both stacking orders; every stream compared before and after on all C01 observations plus six searches"
 	// part 2: the service's own merges.  In every state of the service exploration (all interleavings
 	// of imports, tagging and merges) delivering a merge result must leave what a fresh view shows
@@ -895,4 +898,69 @@ func checkLongConversations(rep *mc.Reporter, root, tier string, deadline time.T
 		rep.Report(mc.Violation{Symptom: "panic", Key: cases[i].name, Msg: text})
 	})
 	return int(nDone), len(cases)
+}
+
+
+// ---- merges that bring streams with equal start (end) times into one file ----
+//
+// In one file the lookups by first and by last packet time have to order such streams somehow; searches that walk
+// these lookups (a sort by time with a limit, a time filter decided from the first and last entry) must not depend
+// on how.
+
+func checkEqualTimes(rep *mc.Reporter, root string) (done, total int) {
+	A, B := ip4(10, 0, 0, 1), ip4(10, 0, 0, 2)
+	C2S, S2C := ref.DirC2S, ref.DirS2C
+	ref.InternFiles("t.pcap")
+	mk := func(id uint64, startMs, durMs int64) *ref.StreamSpec {
+		return &ref.StreamSpec{Name: fmt.Sprintf("s%d %dms..%dms", id, startMs, startMs+durMs), ID: id, Client: A, Server: B, CPort: uint16(1000 + id), SPort: 80,
+			Start: base.Add(time.Duration(startMs) * time.Millisecond),
+			Pkts:  []ref.PktSpec{pk("t.pcap", id*10, 0, C2S, fmt.Sprintf("q%d", id)), pk("t.pcap", id*10+1, durMs*1000, S2C, fmt.Sprintf("a%d", id))}}
+	}
+	abs := func(ms int64) string {
+		return base.Add(time.Duration(ms) * time.Millisecond).Format("2006-01-02 150405") + fmt.Sprintf("+%dms", base.Add(time.Duration(ms)*time.Millisecond).Nanosecond()/1_000_000)
+	}
+	// a sort by one time key is only asked where that key differs between all streams (which of several streams
+	// with equal keys comes first is not defined); the other key is asked with the id as second key
+	menu := func(distinct, tied string) []parsedQuery {
+		var texts []string
+		for _, l := range []int{1, 2, 3} {
+			texts = append(texts, fmt.Sprintf("sort:%s limit:%d", distinct, l), fmt.Sprintf("sort:-%s limit:%d", distinct, l),
+				fmt.Sprintf("sort:%s,id limit:%d", tied, l), fmt.Sprintf("sort:-%s,-id limit:%d", tied, l))
+		}
+		for _, ms := range []int64{-500, 500, 2000, 4000, 6000, 8500, 9500} {
+			texts = append(texts, fmt.Sprintf("ltime:\"%s:\"", abs(ms)), fmt.Sprintf("ltime:\":%s\"", abs(ms)), fmt.Sprintf("ftime:\"%s:\"", abs(ms)), fmt.Sprintf("ftime:\":%s\"", abs(ms)))
+		}
+		var queries []parsedQuery
+		for _, t := range texts {
+			q, err := query.Parse(t)
+			if err != nil {
+				mc.Fatal("query menu %q: %v", t, err)
+			}
+			queries = append(queries, parsedQuery{t, q})
+		}
+		return queries
+	}
+	families := map[string][]*ref.StreamSpec{
+		"equal starts": {mk(1, 0, 5000), mk(2, 0, 8000), mk(3, 0, 3000), mk(4, 0, 9000)},
+		"equal ends":   {mk(1, 4000, 5000), mk(2, 1000, 8000), mk(3, 6000, 3000), mk(4, 0, 9000)},
+	}
+	menus := map[string][]parsedQuery{"equal starts": menu("ltime", "ftime"), "equal ends": menu("ftime", "ltime")}
+	perms := [][]int{{0, 1, 2, 3}, {3, 2, 1, 0}, {1, 0, 3, 2}, {2, 0, 3, 1}, {1, 3, 0, 2}, {0, 2, 1, 3}}
+	names := []string{"equal starts", "equal ends"}
+	for _, fam := range names {
+		queries := menus[fam]
+		for pi, perm := range perms {
+			total++
+			var files []fileSet
+			for _, i := range perm {
+				st := families[fam][i]
+				files = append(files, fileSet{fmt.Sprintf("{%d}", st.ID), []*ref.StreamSpec{st}})
+			}
+			name := fmt.Sprintf("%s: single-stream files in the order %v", fam, perm)
+			if mergeAndCompare(rep, filepath.Join(root, fmt.Sprintf("et_%s_%d", strings.ReplaceAll(fam, " ", "_"), pi)), name, files, queries, map[string]any{"case": name}) {
+				done++
+			}
+		}
+	}
+	return
 }
